@@ -128,3 +128,21 @@ def order(conf: str = "shipped") -> Dict:
                 t.violations.append({"what": f"overlapping templates {a}/{b}: Sid({w!r}).type = {got!r}, first matching template is {exp!r}", "witness": w,
                                      "replay": {"module": "tplz3.replays", "func": "typed_like_oracle", "args": {"s": w, "forced": None}, "env": {"VF_CONF": conf}}})
     return t.result(f"C01-order[{conf}]", family="C01-order")
+
+
+def live_equals_ref(conf: str = "shipped") -> Dict:
+    """C19-live: the live template table equals the reference extrapolation + pattern replacement of the raw module data."""
+    sconf, Resolver, raw = live.load(conf)
+    r = Resolver.get("sid")
+    t = Tally()
+    ref = extrapolate_ref.pattern_replace_ref(
+        extrapolate_ref.extrapolate_ref(dict(raw.sid_templates), list(raw.to_extrapolate)), raw.key_patterns)
+    t.queries += 1
+    if list(ref.items()) != list(sconf.sid_templates.items()) or list(r.get_labels()) != list(ref.keys()):
+        t.violations.append({"what": "live sid_templates differ from the reference extrapolation / pattern replacement of spil_sid_conf",
+                             "witness": {"live": list(sconf.sid_templates.keys()), "ref": list(ref.keys())},
+                             "replay": {"module": "tplz3.replays", "func": "live_templates_equal_ref", "args": {}, "env": {"VF_CONF": conf}}})
+    else:
+        t.discharged += 1
+        t.samples.append({"types": list(ref.keys())})
+    return t.result(f"C19-live[{conf}]", family="C19-live", bound="concrete comparison of the live table (no solver query)")
